@@ -29,7 +29,17 @@ const (
 	stepProposal  = uint32(ucon.UConStepProposal)
 	stepPrecommit = uint32(ucon.Precommit)
 	stepPrevote   = uint32(ucon.Prevote)
+	stepCert      = uint32(ucon.Certificate)
 )
+
+func certQuorumOf(T uint64) uint64 {
+	f := uint64(float64(T) * 0.585)
+	e := new(big.Int).Div(new(big.Int).Mul(new(big.Int).SetUint64(T), big.NewInt(585)), big.NewInt(1000)).Uint64()
+	if e < f {
+		return e
+	}
+	return f
+}
 
 // stubChain is the minimal ChainReader the header verifier needs.
 type stubChain struct {
@@ -42,7 +52,7 @@ func (c *stubChain) VersionForRound(uint64) (*params.YouParams, error) { return 
 func (c *stubChain) VersionForRoundWithParents(uint64, []*types.Header) (*params.YouParams, error) {
 	return c.yp, nil
 }
-func (c *stubChain) CurrentHeader() *types.Header { return c.headers[99] }
+func (c *stubChain) CurrentHeader() *types.Header { return nil }
 func (c *stubChain) GetHeader(h common.Hash, n uint64) *types.Header {
 	if x := c.headers[n]; x != nil && x.Hash() == h {
 		return x
@@ -74,6 +84,8 @@ type entry struct {
 }
 
 type variant struct {
+	certEntries []entry
+	certLB      *types.Header // certificate look-back header (possibly with an author-chosen CertValThreshold)
 	ops        []string
 	header     *types.Header
 	entries    []entry
@@ -91,6 +103,9 @@ func quorumOf(T uint64) uint64 {
 }
 
 type world struct {
+	cert     bool // certificate round (number % 32768 == 0): certificate votes are verified too
+	number   uint64
+	certSeed common.Hash
 	r      *rand.Rand
 	set    *forge.Set
 	yp     *params.YouParams
@@ -136,21 +151,30 @@ func specsFor(r *rand.Rand, cfg int) []env.ValSpec {
 	}
 }
 
-func newWorld(r *rand.Rand, cfg int) (*world, error) {
+func newWorld(r *rand.Rand, cfg int, cert bool) (*world, error) {
 	env.Init()
 	yp := params.Versions[params.YouV5]
 	set, err := forge.NewSet(env.Keyring{Seed: r.Int63()}, specsFor(r, cfg))
 	if err != nil {
 		return nil, err
 	}
-	w := &world{r: r, set: set, yp: &yp}
+	w := &world{r: r, set: set, yp: &yp, cert: cert, number: 100}
+	if cert {
+		w.number = params.ACoCHTFrequency
+	}
 	r.Read(w.seed[:])
+	r.Read(w.certSeed[:])
 	w.chain = &stubChain{headers: map[uint64]*types.Header{}, set: set, yp: &yp}
-	// number 100: seed look-back 8 -> 92, stake look-back 16 -> 84
-	w.chain.headers[84] = forge.SeedHeader(84, common.Hash{1}, set.ValRoot, params.YouV5)
-	w.chain.headers[92] = forge.SeedHeader(92, w.seed, set.ValRoot, params.YouV5)
-	w.parent = forge.SeedHeader(99, common.Hash{2}, set.ValRoot, params.YouV5)
-	w.chain.headers[99] = w.parent
+	// seed look-back 8, stake look-back 16; certificate look-backs 32768 / 65536 -> genesis
+	n := w.number
+	w.chain.headers[n-16] = forge.SeedHeader(n-16, common.Hash{1}, set.ValRoot, params.YouV5)
+	w.chain.headers[n-8] = forge.SeedHeader(n-8, w.seed, set.ValRoot, params.YouV5)
+	w.parent = forge.SeedHeader(n-1, common.Hash{2}, set.ValRoot, params.YouV5)
+	w.chain.headers[n-1] = w.parent
+	if cert {
+		cp := yp.CaravelParams
+		w.chain.headers[0] = forge.SeedHeaderCert(0, w.certSeed, set.ValRoot, params.YouV5, cp.ProposerThreshold, cp.ValidatorThreshold, cp.CertValThreshold)
+	}
 	srv, err := ucon.NewVRFServer(youdb.NewMemDatabase())
 	if err != nil {
 		return nil, err
@@ -200,6 +224,17 @@ func (w *world) findHonest() *honest {
 			sum += uint64(c.J)
 		}
 		if sum >= quorumOf(cp.ValidatorThreshold) {
+			if w.cert {
+				csum := uint64(0)
+				for _, m := range w.set.Members {
+					if m.Chamber && m.Online {
+						csum += uint64(w.set.Sortition(m, w.certSeed, index, stepCert, cp.CertValThreshold).J)
+					}
+				}
+				if csum < certQuorumOf(cp.CertValThreshold) {
+					continue
+				}
+			}
 			return h
 		}
 	}
@@ -490,6 +525,11 @@ func (w *world) build(hn *honest, ops []string) *variant {
 	if err := forge.AttachVotes(h, cidx, vs, asig); err != nil {
 		return nil
 	}
+	if w.cert {
+		if !w.buildCert(v, h, hash, cidx, has) {
+			return nil
+		}
+	}
 	if has("garbage-validator-bytes") {
 		b := make([]byte, r.Intn(200))
 		r.Read(b)
@@ -520,6 +560,122 @@ func (w *world) build(hn *honest, ops []string) *variant {
 	return v
 }
 
+// buildCert forges the certificate-vote container of a certificate round.
+func (w *world) buildCert(v *variant, h *types.Header, hash common.Hash, cidx uint32, has func(string) bool) bool {
+	r := w.r
+	cp := w.yp.CaravelParams
+	certTh := cp.CertValThreshold
+	v.certLB = w.chain.headers[0]
+	if has("cert-lookback-threshold-author") {
+		// the look-back header's (past) proposer declared its own certificate committee size
+		certTh = []uint64{1, 2, 100, cp.CertValThreshold / 2}[r.Intn(4)]
+		v.certLB = forge.SeedHeaderCert(0, w.certSeed, w.set.ValRoot, params.YouV5, cp.ProposerThreshold, cp.ValidatorThreshold, certTh)
+	}
+	round := h.Number
+	mk := func(m *forge.Member, signHash common.Hash, seed common.Hash, step uint32) entry {
+		var c forge.Credential
+		if g := kit.Guard(func() { c = w.set.Sortition(m, seed, cidx, step, certTh) }); g != nil {
+			c = w.set.Sortition(m, seed, cidx, step, cp.CertValThreshold)
+		}
+		vt := forge.SignVote(m, c, signHash, round, cidx, step, seed)
+		e := entry{v: vt}
+		e.valid = m.Idx >= 0 && m.Chamber && m.Online && signHash == hash && seed == w.certSeed && step == stepCert
+		if e.valid {
+			e.jTrue = w.set.Sortition(m, w.certSeed, cidx, stepCert, cp.CertValThreshold).J
+			if e.jTrue == 0 {
+				e.valid = false
+			}
+		}
+		return e
+	}
+	var es []entry
+	for _, m := range w.set.Members {
+		if !m.Chamber || !m.Online {
+			continue
+		}
+		e := mk(m, hash, w.certSeed, stepCert)
+		if e.v.SV.Votes == 0 {
+			continue
+		}
+		es = append(es, e)
+	}
+	sum := func(x []entry) uint64 {
+		seen := map[int]bool{}
+		s := uint64(0)
+		for _, e := range x {
+			if e.valid && !seen[e.v.Signer.I] {
+				seen[e.v.Signer.I] = true
+				s += uint64(e.jTrue)
+			}
+		}
+		return s
+	}
+	q := certQuorumOf(cp.CertValThreshold)
+	if has("cert-drop-below-quorum") || has("cert-duplicate") || has("cert-wrong-step") || has("cert-precommit-credentials") || has("cert-lookback-threshold-author") || has("cert-other-block") {
+		r.Shuffle(len(es), func(i, j int) { es[i], es[j] = es[j], es[i] })
+		for len(es) > 0 && sum(es) >= q {
+			es = es[:len(es)-1]
+		}
+		if has("cert-lookback-threshold-author") && len(es) > 1 {
+			es = es[:1]
+		}
+	}
+	missing := map[int]bool{}
+	for _, m := range w.set.Members {
+		missing[m.I] = m.Chamber && m.Online
+	}
+	for _, e := range es {
+		missing[e.v.Signer.I] = false
+	}
+	if has("cert-duplicate") && len(es) > 0 {
+		for k := 0; k < 5; k++ {
+			es = append(es, es[r.Intn(len(es))])
+		}
+	}
+	for _, m := range w.set.Members {
+		if !missing[m.I] {
+			continue
+		}
+		switch {
+		case has("cert-wrong-step"):
+			es = append(es, mk(m, hash, w.certSeed, stepPrecommit))
+		case has("cert-precommit-credentials"):
+			es = append(es, mk(m, hash, w.seed, stepPrecommit))
+		case has("cert-other-block"):
+			var oh common.Hash
+			r.Read(oh[:])
+			es = append(es, mk(m, oh, w.certSeed, stepCert))
+		}
+	}
+	var vs []*forge.Vote
+	for _, e := range es {
+		vs = append(vs, e.v)
+	}
+	uc := &ucon.UconValidators{RoundIndex: cidx, CCAggrSig: forge.Aggregate(vs)}
+	for _, x := range vs {
+		uc.ChamberCerts = append(uc.ChamberCerts, x.SV)
+	}
+	b, err := uc.ValidatorsToByte()
+	if err != nil {
+		return false
+	}
+	h.Certificate = b
+	if has("cert-missing") {
+		h.Certificate = nil
+		es = nil
+	}
+	if has("cert-garbage") {
+		g := make([]byte, r.Intn(100))
+		r.Read(g)
+		h.Certificate = g
+		es = nil
+	}
+	v.certEntries = es
+	return true
+}
+
+var certSingles = []string{"cert-drop-below-quorum", "cert-duplicate", "cert-wrong-step", "cert-precommit-credentials", "cert-other-block", "cert-lookback-threshold-author", "cert-missing", "cert-garbage"}
+
 var singles = []string{
 	"drop-below-quorum", "few-votes", "exact-quorum", "duplicate-votes", "house-voter", "offline-voter", "outsider-voter",
 	"replayed-other-block", "wrong-index-votes", "wrong-step-credential", "inflated-votes", "container-index-differs",
@@ -549,8 +705,9 @@ func run(c *kit.Ctx) {
 			continue
 		}
 		r := c.Rand(id)
-		c.Begin(id, map[string]interface{}{"config": wi % 6})
-		w, err := newWorld(r, wi)
+		cert := wi%3 == 2 && wi%6 != 4 // certificate rounds need a total stake that can reach the certificate quorum
+		c.Begin(id, map[string]interface{}{"config": wi % 6, "certificate_round": cert})
+		w, err := newWorld(r, wi, cert)
 		if err != nil {
 			c.EndInconclusive("world setup failed: " + err.Error())
 			continue
@@ -572,6 +729,14 @@ func run(c *kit.Ctx) {
 				ops = combos[r.Intn(len(combos))]
 			default:
 				ops = []string{singles[r.Intn(len(singles))], singles[r.Intn(len(singles))]}
+			}
+			if w.cert && len(ops) > 0 && k%2 == 0 {
+				// certificate-part tampering (alone, or on top of one precommit-part operator)
+				if k%4 == 0 {
+					ops = []string{certSingles[r.Intn(len(certSingles))]}
+				} else {
+					ops = append(ops[:1], certSingles[r.Intn(len(certSingles))])
+				}
 			}
 			judge(c, w, hn, ops)
 		}
@@ -596,7 +761,20 @@ func judge(c *kit.Ctx, w *world, hn *honest, ops []string) {
 		}
 	}
 	q := quorumOf(cp.ValidatorThreshold)
-	oracle := v.proposerOK && sum >= q && !v.garbage
+	certOK, csum, cq := true, uint64(0), uint64(0)
+	if w.cert {
+		cq = certQuorumOf(cp.CertValThreshold)
+		cseen := map[int]bool{}
+		for _, e := range v.certEntries {
+			if e.valid && !cseen[e.v.Signer.I] {
+				cseen[e.v.Signer.I] = true
+				csum += uint64(e.jTrue)
+			}
+		}
+		certOK = csum >= cq
+		c.Count("certificate_round_headers", 1)
+	}
+	oracle := v.proposerOK && sum >= q && !v.garbage && certOK
 	block := types.NewBlockWithHeader(v.header)
 	parentBlock := types.NewBlockWithHeader(w.parent)
 	opname := strings.Join(v.ops, "+")
@@ -608,10 +786,13 @@ func judge(c *kit.Ctx, w *world, hn *honest, ops []string) {
 		f    func() error
 	}{
 		{"VerifySideChainHeader", func() error {
-			return w.srv.VerifySideChainHeader(&cp, w.chain.headers[92], w.set.Reader, nil, nil, block, []*types.Block{parentBlock})
+			if w.cert {
+				return w.srv.VerifySideChainHeader(&cp, w.chain.headers[w.number-8], w.set.Reader, v.certLB, w.set.Reader, block, []*types.Block{parentBlock})
+			}
+			return w.srv.VerifySideChainHeader(&cp, w.chain.headers[w.number-8], w.set.Reader, nil, nil, block, []*types.Block{parentBlock})
 		}},
-		{"VerifyHeader", func() error { return w.srv.VerifyHeader(w.chain, v.header, true) }},
-		{"VerifySeal", func() error { return w.srv.VerifySeal(w.chain, v.header) }},
+		{"VerifyHeader", func() error { return w.withCertLB(v, func() error { return w.srv.VerifyHeader(w.chain, v.header, true) }) }},
+		{"VerifySeal", func() error { return w.withCertLB(v, func() error { return w.srv.VerifySeal(w.chain, v.header) }) }},
 	}
 	accepted := false
 	for _, call := range calls {
@@ -627,6 +808,9 @@ func judge(c *kit.Ctx, w *world, hn *honest, ops []string) {
 			accepted = true
 			if !oracle {
 				reason := fmt.Sprintf("valid vote weight under the protocol threshold = %d, protocol quorum = %d, proposer credential valid under protocol threshold = %v", sum, q, v.proposerOK)
+				if w.cert {
+					reason += fmt.Sprintf(", valid certificate-vote weight under the protocol certificate threshold = %d, certificate quorum = %d", csum, cq)
+				}
 				c.Violation("accepted-without-protocol-quorum:"+opname, fmt.Sprintf("%s accepted a header although %s (ops %v)", call.name, reason, v.ops), witness(w, v, sum, q))
 			}
 		}
@@ -643,6 +827,9 @@ func judge(c *kit.Ctx, w *world, hn *honest, ops []string) {
 	}
 	c.Sig(fmt.Sprintf("%s acc%v %s prop%v", opname, accepted, bucket, v.proposerOK))
 	if len(v.ops) == 0 {
+		if accepted && w.cert {
+			c.Count("honest_certificate_round_accepted", 1)
+		}
 		if accepted {
 			c.Count("honest_accepted", 1)
 		} else {
@@ -659,6 +846,17 @@ func judge(c *kit.Ctx, w *world, hn *honest, ops []string) {
 	}
 }
 
+// withCertLB runs f with the variant's certificate look-back header in place (stub chain).
+func (w *world) withCertLB(v *variant, f func() error) error {
+	if !w.cert || v.certLB == nil {
+		return f()
+	}
+	old := w.chain.headers[0]
+	w.chain.headers[0] = v.certLB
+	defer func() { w.chain.headers[0] = old }()
+	return f()
+}
+
 func witness(w *world, v *variant, sum, q uint64) map[string]interface{} {
 	var ms []string
 	for _, m := range w.set.Members {
@@ -669,7 +867,11 @@ func witness(w *world, v *variant, sum, q uint64) map[string]interface{} {
 		es = append(es, fmt.Sprintf("signer#%d voterIdx%d claims%d jTrue%d valid%v", e.v.Signer.I, e.v.SV.VoterIdx, e.v.SV.Votes, e.jTrue, e.valid))
 	}
 	cd, _ := ucon.ExtractConsensusData(v.header)
-	out := map[string]interface{}{"ops": v.ops, "members": ms, "votes": es, "valid_weight": sum, "protocol_quorum": q, "total_online_chamber_stake": w.set.Total.String()}
+	var ces []string
+	for _, e := range v.certEntries {
+		ces = append(ces, fmt.Sprintf("signer#%d voterIdx%d claims%d jTrue%d valid%v", e.v.Signer.I, e.v.SV.VoterIdx, e.v.SV.Votes, e.jTrue, e.valid))
+	}
+	out := map[string]interface{}{"ops": v.ops, "members": ms, "votes": es, "certificate_round": w.cert, "certificate_votes": ces, "valid_weight": sum, "protocol_quorum": q, "total_online_chamber_stake": w.set.Total.String()}
 	if cd != nil {
 		out["header_thresholds"] = fmt.Sprintf("proposer=%d validator=%d cert=%d subUsers=%d", cd.ProposerThreshold, cd.ValidatorThreshold, cd.CertValThreshold, cd.SubUsers)
 	}
